@@ -72,7 +72,6 @@ pub fn auto_trait_table() -> Vec<(&'static str, bool, bool)> {
         "Isaac64Rng" => rand_isaac::Isaac64Rng,
         "Isaac64Core" => rand_isaac::isaac64::Isaac64Core,
         "JitterRng<fn() -> u64>" => rand_jitter::JitterRng<fn() -> u64>,
-        "TimerError" => rand_jitter::TimerError,
     ]
 }
 
@@ -379,6 +378,21 @@ pub fn proc_main(mode: &str, arg: &str) -> i32 {
 }
 
 fn spawn(args: &[&str], spec_json: &str) -> Result<Vec<Result<u64, String>>, String> {
+    // a loaded machine can refuse a fork now and then: retry before calling it a harness error
+    let mut last = String::new();
+    for attempt in 0..4 {
+        match spawn_once(args, spec_json) {
+            Ok(v) => return Ok(v),
+            Err(e) => {
+                last = e;
+                std::thread::sleep(std::time::Duration::from_millis(50 << attempt));
+            }
+        }
+    }
+    Err(last)
+}
+
+fn spawn_once(args: &[&str], spec_json: &str) -> Result<Vec<Result<u64, String>>, String> {
     let exe = std::env::current_exe().map_err(|e| e.to_string())?;
     let mut ch = Command::new(exe).args(args).stdin(Stdio::piped()).stdout(Stdio::piped()).stderr(Stdio::null()).spawn().map_err(|e| e.to_string())?;
     ch.stdin.take().unwrap().write_all(spec_json.as_bytes()).map_err(|e| e.to_string())?;
@@ -634,7 +648,7 @@ impl Scenario for C19 {
     }
 
     fn rule(&self) -> String {
-        "Static: Send and Sync of the 19 deterministic generator types, the 3 cores, JitterRng<fn() -> u64> and TimerError, evaluated at compile time by inherent-const shadowing. Dynamic, per run: 2..6 generator instances of mixed types (deterministic generators through every seeding route with zero seeds / seed_from_u64(0) over-weighted, duplicates of the same type and seed, JitterRng instances each over its own scripted clock), each with its own history of next_u32/next_u64/fill_bytes/jump/clone, and 1..4 worker threads. The seeded scheduler repeatedly picks (instance, thread): ownership of the instance is MOVED to that OS thread, which performs exactly one operation and hands the baton back (never more than one runnable thread, so the interleaving replays exactly); schedule styles: round robin, uniform, bursts; thread migrations; disturbances between steps (unrelated generators created/seeded/dropped incl. the zero-seed remap and SplitMix64 expansion, block generators run across a refill, JitterRng::new() which touches the process-wide JITTER_ROUNDS cache). The interleaved run executes in its own fresh process; every instance is also run ALONE in its own fresh process, and all instances under sequential and reverse-sequential composition in one further process each; per-instance output digests must be identical in all of them. distinct_nontrivial = distinct (instance, thread) sequences with at least one interleave and one migration (plus one signature per type of the static table).".into()
+        "Static: Send and Sync of the 19 deterministic generator types, the 3 cores, JitterRng<fn() -> u64>, evaluated at compile time by inherent-const shadowing. Dynamic, per run: 2..6 generator instances of mixed types (deterministic generators through every seeding route with zero seeds / seed_from_u64(0) over-weighted, duplicates of the same type and seed, JitterRng instances each over its own scripted clock), each with its own history of next_u32/next_u64/fill_bytes/jump/clone, and 1..4 worker threads. The seeded scheduler repeatedly picks (instance, thread): ownership of the instance is MOVED to that OS thread, which performs exactly one operation and hands the baton back (never more than one runnable thread, so the interleaving replays exactly); schedule styles: round robin, uniform, bursts; thread migrations; disturbances between steps (unrelated generators created/seeded/dropped incl. the zero-seed remap and SplitMix64 expansion, block generators run across a refill, JitterRng::new() which touches the process-wide JITTER_ROUNDS cache). The interleaved run executes in its own fresh process; every instance is also run ALONE in its own fresh process, and all instances under sequential and reverse-sequential composition in one further process each; per-instance output digests must be identical in all of them. distinct_nontrivial = distinct (instance, thread) sequences with at least one interleave and one migration (plus one signature per type of the static table).".into()
     }
     fn assumptions(&self) -> Vec<String> {
         vec![
